@@ -616,7 +616,18 @@ func monGetTaskRef(g *tfGen, existing *execution.TaskRef, task jobtasks.Task, re
 	if !obs.RunningTimestamp.IsZero() && (res.RunningTimestamp.IsZero() || !res.RunningTimestamp.Time.Equal(obs.RunningTimestamp.Time)) {
 		g.violate("C11", "c11.taskref-observed", "running timestamp reported by the task not recorded")
 	}
-	if !obs.FinishTimestamp.IsZero() {
+	finalKept := existing != nil && !existing.FinishTimestamp.IsZero() && !obs.FinishTimestamp.IsZero() &&
+		(existing.Status.State == execution.TaskTerminated || existing.Status.State == execution.TaskDeletedFinalStateUnknown)
+	if finalKept {
+		// C11: a recorded final status / finish time never changes, whatever (possibly stale)
+		// terminal copy of the task is observed later
+		c.Count("branch.gettaskref.final-status-kept")
+		if res.Status.State != existing.Status.State || res.Status.Result != existing.Status.Result ||
+			!res.FinishTimestamp.Time.Equal(existing.FinishTimestamp.Time) {
+			g.violate("C11", "c11.final-status-kept", "ref %s was finished as %s@%d, GetTaskRef rewrote it as %s@%d", existing.Name,
+				EncStatus(existing.Status), existing.FinishTimestamp.Unix(), EncStatus(res.Status), res.FinishTimestamp.Unix())
+		}
+	} else if !obs.FinishTimestamp.IsZero() {
 		c.Count("branch.gettaskref.task-finished")
 		if res.DeletedStatus == nil || res.DeletedStatus.State != obs.Status.State || res.DeletedStatus.Result != obs.Status.Result {
 			g.violate("C11", "c11.taskref-observed", "finished task: DeletedStatus %s is not the task's status %s", EncDStatus(res.DeletedStatus), EncStatus(obs.Status))
